@@ -10,7 +10,7 @@ let id = "C19"
 let rule = "scenarios sync (NewDbSyncer + Sync: start banner, checkpoint load, PSYNC with AUTH, full sync through the worker pool, incremental sync, a dropped source \
 connection and its re-established PSYNC), restore, rump, dump, restart (a source refusing connections: the syncer restarts itself until its failure budget is used up and aborts) and cluster (a cluster source with no reachable master: topology re-discovery gives up after its retry budget and the run aborts; output captured through a side file), each with distinct random sentinel passwords for source and target (printable, with spaces, quotes, \
 percent signs, JSON-special characters; also empty) x log level error/info/debug; all bytes written through pkg/libs/log and the documents GetSafeOptions / GetExtraInfo \
-(JSON and %v) are searched for the sentinels; the run must really have authenticated with them (AUTH seen by the fakes); a tenth of the cases each with only the source or only the target password set; non-trivial = at least one password non-empty; distinct by wire line"
+(JSON and %v) are searched for the sentinels; the run must really have authenticated with them (AUTH seen by the fakes); a tenth of the cases each with only the source or only the target password set; a third of the restore / sync / rump / dump scenarios against servers that REJECT the AUTH command (the failure path of authentication); non-trivial = at least one password non-empty; distinct by wire line"
 
 let bs = bytes_of_string
 let raw s = SRaw ((if String.length s < 64 then L6 else L14), bs s)
@@ -21,6 +21,9 @@ let sentinel st tag =
     | 2 -> "p%v%s%d\"q'" ^ rnd_string_of st "xyz" 6
     | 3 -> "{\"json\":1}\\" ^ rnd_string_of st "0123456789" 8
     | _ -> rnd_string_of st "abcdefghijklmnopqrstuvwxyzABCDEFGHIJKLMNOPQRSTUVWXYZ0123456789!#$&*+-./:;<=>?@^_~" 24)
+
+(* "<scenario>+noauth": the same scenario against a source and a target that answer AUTH with an error *)
+let base c = match String.index_opt c.scenario '+' with Some i -> String.sub c.scenario 0 i | None -> c.scenario
 
 let gen_case st scenario =
   let units = [ USelect (L6, n_of_int 0); UKey (raw "k1", VStr (N0, raw "v1")); UKey (raw "k2", VHash (L6, [ (raw "f", raw "v") ]));
@@ -33,18 +36,20 @@ let gen_case st scenario =
 
 let gen st tier =
   let n = if tier = "thorough" then 400 else 48 in
-  List.init n (fun i -> gen_case st (List.nth [ "sync"; "sync"; "restore"; "rump"; "dump"; "sync" ] (i mod 6)))
+  List.init n (fun i -> gen_case st (List.nth [ "sync"; "sync"; "restore"; "rump"; "dump"; "sync"; "restore+noauth"; "sync+noauth"; "rump+noauth"; "dump+noauth"; "sync"; "restore" ] (i mod 12)))
   @ List.init (if tier = "thorough" then 4 else 1) (fun _ -> { (gen_case st "cluster") with level = "error" })
   @ List.init (if tier = "thorough" then 4 else 1) (fun _ -> { (gen_case st "restart") with level = "error" })
 
 let corpus = [ { (gen_case (Random.State.make [| 19 |]) "sync") with srcpw = "SRC-sentinel-0001"; tgtpw = "TGT-sentinel-0002"; level = "info" };
                { (gen_case (Random.State.make [| 20 |]) "restore") with srcpw = ""; tgtpw = "TGT-sentinel-0003"; level = "info" };
-               { (gen_case (Random.State.make [| 21 |]) "sync") with srcpw = "SRC-sentinel-0004"; tgtpw = ""; level = "info" } ]
+               { (gen_case (Random.State.make [| 21 |]) "sync") with srcpw = "SRC-sentinel-0004"; tgtpw = ""; level = "info" };
+               { (gen_case (Random.State.make [| 22 |]) "restore+noauth") with srcpw = "SRC-sentinel-0005"; tgtpw = "TGT-sentinel-0006"; level = "info" };
+               { (gen_case (Random.State.make [| 23 |]) "sync+noauth") with srcpw = "SRC-sentinel-0007"; tgtpw = "TGT-sentinel-0008"; level = "info" } ]
 
 let dump_payload = string_of_bytes (encode_dump Valgen.fmt_g17 (LString (bs "v")))
 let to_line c =
   Printf.sprintf "%s %s %s %s %s %s" c.scenario (C02.hexd c.srcpw) (C02.hexd c.tgtpw) c.level
-    (hex_of_string (if c.scenario = "rump" then dump_payload else Rdbgen.image 9 c.units))
+    (hex_of_string (if base c = "rump" then dump_payload else Rdbgen.image 9 c.units))
     (C02.hexd (String.concat "" (List.map Incrgen.resp_bytes c.cmds)))
 let show c = Printf.sprintf "%s at log level %s; source password %S, target password %S" c.scenario c.level c.srcpw c.tgtpw
 let classify c = if c.srcpw = "" && c.tgtpw = "" then None else Some (c.scenario ^ ":" ^ c.level ^ (if c.srcpw = "" then ":target-only" else if c.tgtpw = "" then ":source-only" else ""))
@@ -54,7 +59,7 @@ let fail kind sig_ model impl detail = Fail { kind; sig_; model; impl; detail }
 let judge c obs =
   let impl = let s = String.concat " " obs in if String.length s > 1500 then String.sub s 0 1500 ^ "..." else s in
   let has_sub s sub = let n = String.length sub in let rec go i = i + n <= String.length s && (String.sub s i n = sub || go (i + 1)) in n > 0 && go 0 in
-  if c.scenario = "cluster" || c.scenario = "restart" then begin
+  if base c = "cluster" || base c = "restart" then begin
     (* the start path gives up (no master reachable) and exits: what it printed is in the side file *)
     match Srcgen.field obs "abort", Srcgen.field obs "side" with
     | Some _, Some h ->
@@ -70,9 +75,9 @@ let judge c obs =
   | Some "-" ->
       (* the run must have used the passwords, otherwise the absence of a leak means nothing *)
       let geti n = match Srcgen.field obs n with Some v -> int_of_string v | None -> 0 in
-      if c.tgtpw <> "" && c.scenario <> "dump" && geti "tgtauth" = 0 then fail "diff" "scenario-no-auth" "AUTH on the target" impl "the scenario never authenticated against the target: it does not exercise the password path"
-      else if c.scenario = "sync" && c.srcpw <> "" && geti "srcauth" < 2 then fail "diff" "scenario-no-auth" "AUTH on the source for the first and the re-established connection" impl "the sync scenario did not authenticate twice against the source"
-      else if c.scenario = "sync" && geti "keys" < 6 then fail "diff" "scenario-incomplete" "at least 6 target keys" impl "the sync scenario did not run through full and incremental sync"
+      if c.tgtpw <> "" && base c <> "dump" && geti "tgtauth" = 0 then fail "diff" "scenario-no-auth" "AUTH on the target" impl "the scenario never authenticated against the target: it does not exercise the password path"
+      else if base c = "sync" && c.srcpw <> "" && geti "srcauth" < 2 then fail "diff" "scenario-no-auth" "AUTH on the source for the first and the re-established connection" impl "the sync scenario did not authenticate twice against the source"
+      else if base c = "sync" && geti "keys" < 6 then fail "diff" "scenario-incomplete" "at least 6 target keys" impl "the sync scenario did not run through full and incremental sync"
       else Agree
   | Some l ->
       let first = List.hd (String.split_on_char ',' l) in
